@@ -144,7 +144,7 @@ func c01R1(p *core.Program, r *core.Report, w *core.Func, parse *ast.CallExpr, f
 	// the parsed source is the assembled buffer
 	src, _ := core.Resolve(info, w.Body, parse.Args[2])
 	okSrc := false
-	if c, ok := ast.Unparen(src).(*ast.CallExpr); ok && core.CalleeName(info, c) == "(*bytes.Buffer).Bytes" {
+	if c, ok := ast.Unparen(src).(*ast.CallExpr); ok && (core.CalleeName(info, c) == "(*bytes.Buffer).Bytes" || core.CalleeName(info, c) == "(*bytes.Buffer).String") { // the buffer's content, as bytes or as a string: go/parser takes either
 		okSrc = true
 	}
 	r.Check(okSrc, rule, w, "the parsed source is the assembled buffer", parse.Pos(), "ParseFile(fset, name, src.Bytes(), ...)", "ParseFile does not parse the bytes of the assembled source buffer")
@@ -251,7 +251,7 @@ func c01R3(p *core.Program, r *core.Report, w *core.Func) {
 	g := graph(w)
 	// source buffer: the buffer whose Bytes() are parsed
 	var src *types.Var
-	for _, c := range core.CallsTo(info, w.Body, true, "(*bytes.Buffer).Bytes") {
+	for _, c := range core.CallsTo(info, w.Body, true, "(*bytes.Buffer).Bytes", "(*bytes.Buffer).String") {
 		if v := core.VarOf(info, recvOf(c)); v != nil {
 			src = v
 		}
@@ -399,7 +399,7 @@ func c01R4(p *core.Program, r *core.Report, w *core.Func, parse *ast.CallExpr) {
 	info := w.Info()
 	g := graph(w)
 	var src *types.Var
-	for _, c := range core.CallsTo(info, w.Body, true, "(*bytes.Buffer).Bytes") {
+	for _, c := range core.CallsTo(info, w.Body, true, "(*bytes.Buffer).Bytes", "(*bytes.Buffer).String") {
 		if v := core.VarOf(info, recvOf(c)); v != nil {
 			src = v
 		}
